@@ -329,3 +329,63 @@ def rule_ret(rep, m, fn, rule='R-RET'):
         det = 'a path falls off the end of the function (returns None) although other paths return a value'
     rep.ob(rule, '%s:%s' % (m.rel, q), ok, det, m.rel, line, what='no implicit None return')
     return ok
+
+
+# ---------------------------------------------------------------------------
+# R-NPIDX: a list of slice objects / newaxis must be converted to a tuple before it is used as an index
+# ---------------------------------------------------------------------------
+
+def _is_slice_like(e):
+    if isinstance(e, ast.Call) and dotted(e.func) in ('slice',):
+        return True
+    if isinstance(e, ast.Name) and e.id in ('nuax', 'newaxis'):
+        return True
+    if isinstance(e, ast.Attribute) and e.attr == 'newaxis':
+        return True
+    if isinstance(e, ast.Constant) and e.value is None:
+        return True
+    return False
+
+
+def rule_npindex(rep, m, fn, rule='R-NPIDX'):
+    """numpy (>= 1.23) rejects a *list* of slices/newaxis as a multi-dimensional index: such index lists must be passed
+    through tuple() before use"""
+    q = getattr(fn, '_qualname', fn.name)
+    kinds = {}      # var -> 'slicelist' | 'tuple'
+    order = []
+    for n in own_nodes(fn):
+        order.append(n)
+    n_sites = 0
+    bad = []
+    for n in sorted((x for x in order if hasattr(x, 'lineno')), key=lambda x: (x.lineno, getattr(x, 'col_offset', 0))):
+        if isinstance(n, ast.Assign):
+            v = n.value
+            tg = n.targets[0]
+            pairs = list(zip(tg.elts, v.elts)) if isinstance(tg, ast.Tuple) and isinstance(v, ast.Tuple) and len(tg.elts) == len(v.elts) else [(tg, v)]
+            for t, val in pairs:
+                if not isinstance(t, ast.Name):
+                    if isinstance(t, ast.Subscript) and isinstance(t.value, ast.Name) and t.value.id in kinds and _is_slice_like(val) and kinds[t.value.id] != 'tuple':
+                        kinds[t.value.id] = 'slicelist'
+                    continue
+                if isinstance(val, ast.List) and val.elts and all(_is_slice_like(e) for e in val.elts):
+                    kinds[t.id] = 'slicelist'
+                elif isinstance(val, ast.ListComp) and _is_slice_like(val.elt):
+                    kinds[t.id] = 'slicelist'
+                elif isinstance(val, ast.BinOp) and isinstance(val.op, ast.Mult) and isinstance(val.left, ast.List) and val.left.elts and all(_is_slice_like(e) for e in val.left.elts):
+                    kinds[t.id] = 'slicelist'
+                elif isinstance(val, ast.Call) and dotted(val.func) == 'tuple':
+                    kinds[t.id] = 'tuple'
+                elif isinstance(val, ast.Call) and dotted(val.func) == 'list' and val.args and isinstance(val.args[0], ast.Name) and kinds.get(val.args[0].id) == 'slicelist':
+                    kinds[t.id] = 'slicelist'
+                elif t.id in kinds:
+                    del kinds[t.id]
+        elif isinstance(n, ast.Subscript) and isinstance(n.slice, ast.Name) and kinds.get(n.slice.id) in ('slicelist', 'tuple'):
+            n_sites += 1
+            if kinds[n.slice.id] == 'slicelist':
+                bad.append(n)
+    for n in bad:
+        rep.ob(rule, '%s:%s' % (m.rel, q), False, '`%s` indexes with the list %s of slices/newaxis; numpy requires a tuple here (IndexError at run time)' % (ast.unparse(n), n.slice.id),
+               m.rel, n.lineno, what='index list %s converted with tuple() before use' % n.slice.id)
+    if n_sites and not bad:
+        rep.ob(rule, '%s:%s' % (m.rel, q), True, '%d uses of constructed multi-dimensional indices, all tuples' % n_sites, m.rel, fn.lineno, what='index lists converted with tuple() before use')
+    return n_sites
